@@ -131,7 +131,103 @@ def floor_C09(ctx, agg):
     return miss
 
 
+def defl_cov(rule, expl):
+    def f(ctx, agg):
+        st = agg.stats
+        c = {"rule": rule, "explanation": expl, "library_calls": int(st.get("library_calls", 0)),
+             "cpu_levels_simulated": sorted(agg.sets.get("cpu_levels", [])),
+             "streams_with_stored_fallback": int(st.get("stored_fallback_streams", 0)), "multiblock_streams": int(st.get("multiblock_streams", 0)), "inputs_over_64k": int(st.get("inputs_over_64k", 0)),
+             "flush_points_checked": int(st.get("flush_points_checked", 0)), "full_flush_points": int(st.get("full_flush_points", 0)), "full_flush_suffixes_over_1k": int(st.get("full_flush_suffixes_1k", 0)),
+             "state_transitions_observed": dict(sorted(agg.cnts.get("state_transitions", {}).items())),
+             "tmp_state_resume_points": dict(sorted(agg.cnts.get("tmp_state_resume_points", {}).items()))}
+        for k in ("invalid_params", "dict_wrong_state", "oneshot"):
+            if k in agg.cnts:
+                c[k] = dict(sorted(agg.cnts[k].items()))
+        return c
+    return f
+
+
+def defl_floor(min_streams, extra=None):
+    def f(ctx, agg):
+        miss = []
+        if agg.stats.get("evaluations", 0) < min_streams:
+            miss.append("only %d streams verified (< %d)" % (agg.stats.get("evaluations", 0), min_streams))
+        if len(agg.sets.get("cpu_levels", [])) < 8:
+            miss.append("fewer than 8 simulated CPU levels applied")
+        if extra:
+            miss += extra(ctx, agg)
+        return miss
+    return f
+
+
+def run_C01(ctx):
+    ctx.run("asm", "eng_deflate.c")
+    ctx.run("hist8k", "eng_deflate.c", scale=0.15)
+    ctx.run("longer", "eng_deflate.c", scale=0.15)
+    if ctx.thorough:
+        ctx.run("asm-assert", "eng_deflate.c", scale=0.2)
+        ctx.run("asm-asan", "eng_deflate.c", scale=0.1)
+        ctx.run("c-asan", "eng_deflate.c", scale=0.5)
+
+
+def run_C10(ctx):
+    ctx.run("asm", "eng_deflate.c")
+    ctx.run("hist8k", "eng_deflate.c", scale=0.1)
+    if ctx.thorough:
+        ctx.run("asm-asan", "eng_deflate.c", scale=0.1)
+        ctx.run("c-asan", "eng_deflate.c", scale=0.4)
+
+
+def run_C14(ctx):
+    ctx.run("asm", "eng_deflate.c")
+    ctx.run("hist8k", "eng_deflate.c", scale=0.1)
+    ctx.run("longer", "eng_deflate.c", scale=0.1)
+    if ctx.thorough:
+        ctx.run("c-asan", "eng_deflate.c", scale=0.4)
+
+
+def run_C17(ctx):
+    ctx.run("asm", "eng_deflate.c")
+    ctx.run("hist8k", "eng_deflate.c", scale=0.15)
+    ctx.run("longer", "eng_deflate.c", scale=0.15)
+    if ctx.thorough:
+        ctx.run("c-asan", "eng_deflate.c", scale=0.4)
+
+
 PROPS = {
+    "C10": dict(
+        run=run_C10, level="exploration",
+        coverage=defl_cov(
+            "one-shot: inputs (empty, incompressible incl. 65535k+-1, compressible, constant) x level x wrapper x flush with avail_out drawn around the stored-block bound (bound-9..bound+9), around the header size, {0,1,7,8}, uniformly below the bound and bound+16, output END-placed at a guard page; streaming termination: end_of_stream with output chunk sequences constant 1/2/3, 1..7 random, alternating 1/300, geometric; every 10th case an invalid parameter (level 4/5/huge, flush 3+/0xFFFF, NULL or undersized level_buf); distinct by hash of (parameters, output)",
+            "bound = n + 5*max(1,ceil(n/65535)) + header + trailer computed independently; avail_out >= bound must give COMP_OK with total_out <= bound; COMP_OK must always be a complete stream (reference + zlib); overflow must be reported as STATELESS_OVERFLOW; counters must equal bytes actually consumed/produced; a history that never reaches ZSTATE_END within 20000+600n calls is a violation"),
+        floors=defl_floor(1500, lambda ctx, agg: (["fewer than 300 overflow reports observed"] if agg.cnts.get("oneshot", {}).get("overflow_reported", 0) < 300 else []) + (["invalid parameter classes: %s" % sorted(agg.cnts.get("invalid_params", {}))] if len(agg.cnts.get("invalid_params", {})) < 7 else [])),
+        assumptions=["undersized level_buf may be reported as ISAL_INVALID_LEVEL or ISAL_INVALID_LEVEL_BUF (the property only requires an error code)", "one-shot level 1 with NULL level_buf is the documented internal-buffer fallback and must succeed"],
+    ),
+    "C14": dict(
+        run=run_C14, level="exploration",
+        coverage=defl_cov(
+            "streaming histories on inputs with strong cross-flush redundancy (the same 1-8 KiB phrase repeated), flush mode per call from scripts (constant SYNC/FULL, sparse SYNC, sparse FULL, uniformly mixed), all levels/wrappers, output chunkings incl. <8 bytes; every 7th case a chain of 2..6 one-shot FULL_FLUSH calls plus a final NO_FLUSH call; distinct by hash of (parameters, output)",
+            "event-log monitor: at every call made with SYNC/FULL that returns with all input consumed and output space left the output so far must end 00 00 FF FF, the state must be ZSTATE_NEW_HDR and (for up to 6 points per stream) the reference decoder in prefix mode must deliver exactly the bytes fed so far; after completion the remainder from every completed FULL flush point is decoded on its own (no history) and must equal the remaining input; one-shot chains are concatenated and decoded by reference and zlib"),
+        floors=defl_floor(1200, lambda ctx, agg: (["only %d flush points" % agg.stats.get("flush_points_checked", 0)] if agg.stats.get("flush_points_checked", 0) < 3000 else []) + (["only %d full-flush suffixes >= 1 KiB" % agg.stats.get("full_flush_suffixes_1k", 0)] if agg.stats.get("full_flush_suffixes_1k", 0) < 300 else [])),
+        assumptions=["a flush point is judged exactly where the property defines it (flush call returned, avail_in == 0, avail_out > 0)"],
+    ),
+    "C17": dict(
+        run=run_C17, level="exploration",
+        coverage=defl_cov(
+            "inputs with a phrase repeated at distances 2^w-2..2^w+2, 32766..32770, 65534..65538 and random, w = hist_bits 9..15 (and 0), all levels, one-shot and streaming with random chunking, flush modes; half of the cases use a preset dictionary (length 1..70000, set directly or via process_dict+reset_dict) with data quoting the dictionary tail and the part beyond the window; every 12th case a dictionary call in a wrong state (mid-block, level changed); distinct by hash of (parameters, output)",
+            "instrumented reference decode reports the maximum match distance: must be <= 2^w and <= 32768, never before the start of output+dictionary; zlib CINFO must cover the window; dictionary streams decoded by the reference primed with the same dictionary (and zlib inflateSetDictionary for raw streams); wrong-state dictionary calls must fail and leave the stream struct byte-identical"),
+        floors=defl_floor(1500, lambda ctx, agg: [] if len(agg.cnts.get("dict_wrong_state", {})) >= 3 else ["dictionary wrong-state classes %s" % sorted(agg.cnts.get("dict_wrong_state", {}))]),
+        assumptions=["window of the hist8k/LONGER_HUFFTABLE builds is 8 KiB"],
+    ),
+    "C01": dict(
+        run=run_C01, level="exploration",
+        coverage=defl_cov(
+            "cases from PRNG(seed,index) per simulated CPU level: input family (empty, tiny, constant runs at the 258/115/130/230 thresholds, incompressible, text, long-range repeats at window edges, 65535-multiples, >64 KiB mixed) x level 0-3 x one-shot/streaming x flush x 5 wrappers x hist_bits {0,9..15} x table {default,static,custom} x level_buf size {MIN,SMALL,DEFAULT,XL,odd}; distinct by hash of (parameters, compressed bytes); non-trivial = non-empty input that completed",
+            "every produced stream is decoded by an independent RFC 1951/1950/1952 decoder and by zlib: must be accepted, reproduce the input exactly, be consumed to its last byte, trailer accepted; all dispatched igzip kernels are selected by the real resolvers under 11 simulated CPU levels; hist8k and LONGER_HUFFTABLE builds repeat a reduced matrix"),
+        floors=defl_floor(1500, lambda ctx, agg: [m for m in (["no stored-fallback stream seen"] if not agg.stats.get("stored_fallback_streams") else []) + (["no multi-block level 1-3 stream"] if not agg.stats.get("multiblock_streams") else []) + (["no input > 64 KiB"] if not agg.stats.get("inputs_over_64k") else [])]),
+        assumptions=["contexts, level_buf and tables at malloc-grade alignment (documented usage); data buffers at arbitrary alignment and guard-page placed",
+                     "the reference decoder and zlib are trusted as standards-conformant decoders (reference self-checked against zlib in setup)"],
+    ),
     "C20": dict(run=run_C20, level="exploration", coverage=cov_C20, floors=kern_floor(5, 60),
                 assumptions=["host CPU executes every variant"]),
     "C12": dict(run=run_C12, level="exploration", coverage=cov_C12,
